@@ -1525,6 +1525,10 @@ func (x *Exec) builtinModel(fr *Frame, st *State, fn *ssa.Function, name string,
 		return true
 	case "(*sync/atomic.Int64).Store", "(*sync/atomic.Bool).Store", "(*sync/atomic.Int32).Store":
 		model()
+		if _, ok := st.ghost["lastBoolStore"]; ok && name == "(*sync/atomic.Bool).Store" {
+			// ghost record of the value most recently stored into an atomic.Bool (when the spec declares it)
+			st.ghost["lastBoolStore"] = args[1]
+		}
 		st.ghost[atomicKey(args[0].(*PtrV))] = args[1]
 		k(st, nil)
 		return true
@@ -1769,6 +1773,10 @@ func (x *Exec) bbGet(st *State, p *PtrV) (*Content, *Term) {
 	} else {
 		c = x.ContentConst(tb.BVi(8, 0))
 		n = tb.BVi(64, 0)
+		if x.bbFresh == nil {
+			x.bbFresh = map[string]bool{}
+		}
+		x.bbFresh[bbKey(p)] = true // buffer of an object allocated by the function under verification: not subject to its frame
 	}
 	st.ghost[bbKey(p)] = &bbGhost{c: c, n: n}
 	return c, n
